@@ -46,7 +46,7 @@ Definition normalized_name (n : name) : name :=
 (* the default value of a parameter's type, as far as its rendering matters:
    a value whose repr() is a self-evaluating literal (None, ints, floats,
    booleans, strings, {}; the token is interned by the harness), or an
-   enumeration literal, whose text is a bare name *)
+   enumeration literal, whose repr() `name=value` is not an expression *)
 Inductive dval : Type :=
 | DLit (t : Z)
 | DEnum (t : Z).
@@ -61,7 +61,7 @@ Record param : Type := mkParam {
 
 Inductive dtext : Type :=
 | TLit (t : Z)       (* text of a literal: evaluates to the value it was rendered from *)
-| TBare (t : Z).     (* a bare identifier: NameError when the def statement is executed *)
+| TBare (t : Z).     (* text that is not an expression: the def statement does not compile *)
 
 Record pcode : Type := mkPcode {
   pc_name : name;
@@ -97,7 +97,7 @@ Definition to_code (opname : name) (ps : list param) : header :=
 
 (* ---------- Python's def (through RestrictedPython) ---------- *)
 
-Inductive deferr : Type := SyntaxErr | NameErr.
+Inductive deferr : Type := SyntaxErr.
 
 Definition is_alpha_ (c : Z) : bool :=
   ((65 <=? c) && (c <=? 90)) || ((97 <=? c) && (c <=? 122)) || (c =? 95).
@@ -160,14 +160,12 @@ Fixpoint defaults_of (cs : signature) : list dtext :=
                  end
   end.
 
-(* compile_restricted + exec of the header: every syntax problem is reported
-   before anything is evaluated *)
+(* compile_restricted + exec of the header *)
 Definition py_def (h : header) : deferr + argspec :=
   let names := map pc_name (h_params h) in
   if bad_name (h_name h) || existsb bad_name names || has_dup names
-     || req_after_opt false (h_params h)
+     || req_after_opt false (h_params h) || existsb is_bare (h_params h)
   then inl SyntaxErr
-  else if existsb is_bare (h_params h) then inl NameErr
   else inr (mkSpec names (defaults_of (h_params h))).
 
 (* declarations the property quantifies over: required parameters first *)
@@ -319,7 +317,7 @@ Definition enc_params (ps : list param) : list Z :=
 
 (* sig: opname nparams params.. ->
      normalised name ; 0 + bound signature + reflected parameters of the generated function
-                     | 1 (SyntaxError) | 2 (NameError) *)
+                     | 1 (SyntaxError) *)
 Definition run_sig (t : list Z) : list Z :=
   let '(n, r) := dec_name t in
   match r with
@@ -329,7 +327,6 @@ Definition run_sig (t : list Z) : list Z :=
     enc_name (h_name h) ++
     match py_def h with
     | inl SyntaxErr => [1]
-    | inl NameErr => [2]
     | inr s => [0] ++ enc_view (bound_signature s) ++ enc_params (promote_spec s)
     end
   | [] => []
